@@ -204,16 +204,20 @@ func (l *layout) place(root, dest string, kids []node, rec bool, reached bool) {
 		}
 		c := k.content()
 		a := len(c)
-		d := uint64(a)
+		cd, local := uint64(a), uint64(a) // what the central directory / the local header announce
 		if k.Lie != nil {
 			v := k.Lie.value(a)
-			if v > d {
-				d = v
-				if k.Lie.Where != "local" && reached {
-					l.shortReach = true
-				}
+			if k.Lie.Where != "local" {
+				cd = v
+			}
+			if k.Lie.Where != "cd" {
+				local = v
+			}
+			if cd > uint64(a) && reached {
+				l.shortReach = true
 			}
 		}
+		d := max(cd, local) // weakest reading of "the size its header declares": the larger of the two headers
 		if old, ok := l.declared[p]; !ok || d > old {
 			l.declared[p] = d
 		}
